@@ -30,11 +30,33 @@ let observe (a : automaton) s : automaton * string =
   | "nextall" -> let chars = cword c in
       (a, String.concat "," (List.concat_map (fun st -> List.map (fun x -> string_of_int (int_of_nat (get (a_next a st x)))) chars) a.astates))
   | "csnext" -> let st = ci c in let x = cn c in let y = cn c in
-      let s0 = a_state a (nat_of_int st) in
-      (match get (pclass_of_set s0.a_classes (x, y)) with
+      (* Automaton::state(st) panics out of range; CharSet::range debug-asserts x <= y <= MAX_CHAR *)
+      let s0 = get (a_state_at a (nat_of_int st)) in
+      if not (cs_validb (x, y)) then raise Panic;
+      (match get (a_char_set_next a s0 (x, y)) with
        | None -> (a, "ERR AmbiguousCharSet")
-       | Some (CInt i) -> (a, string_of_int (int_of_nat (List.nth s0.a_succ (int_of_nat i))))
-       | Some CComp -> (a, string_of_int (int_of_nat (get s0.a_default))))
+       | Some t -> (a, string_of_int (int_of_nat t.a_id)))
+  | "stateinfo" -> let probes = cword c in
+      let cid_show = function CComp -> "c" | CInt i -> string_of_int (int_of_nat i) in
+      let nat_s k = string_of_int (int_of_nat k) in
+      let ini = get (a_initial_state a) in
+      let hd = Printf.sprintf "i=%s n=%s nf=%s F=%s" (nat_s ini.a_id) (nat_s (a_num_states a)) (nat_s (a_num_final_states a))
+                 (String.concat "," (List.map (fun (t : astate) -> nat_s t.a_id) (a_final_states a))) in
+      let one k (s : astate) =
+        let st = get (a_state_at a (nat_of_int k)) in
+        let ns = s_num_successors s in
+        let d = match s_default_successor s with Some d -> nat_s d | None -> "-" in
+        let dd = match get (a_default_successor a s) with Some t -> nat_s t.a_id | None -> "-" in
+        let cls = List.map cid_show (s_char_classes s) in
+        let nx = List.map (fun cid -> nat_s (get (a_class_next a s cid)).a_id) (s_char_classes s) in
+        let picks = List.map sn (s_char_picks s) in
+        let rg = List.map cs_show (s_char_ranges s) in
+        let pr = List.map (fun x -> cid_show (get (s_class_of_char s x)) ^ b (get (s_char_maps_to_default s x))) probes in
+        Printf.sprintf "s%s:k=%s:ns=%s:hd=%s:d=%s:D=%s:v=%s%s%s:cls=%s:nx=%s:picks=%s:rg=%s:p=%s"
+          (nat_s s.a_id) (nat_s st.a_id) (nat_s ns) (b (s_has_default_successor s)) d dd
+          (b (s_valid_class_id s CComp)) (b (s_valid_class_id s (CInt O))) (b (s_valid_class_id s (CInt ns)))
+          (String.concat "," cls) (String.concat "," nx) (String.concat "," picks) (String.concat "," rg) (String.concat "," pr) in
+      (a, String.concat " " (hd :: List.mapi one (a_states a)))
   | "edges" ->
       (a, String.concat " " (List.map (fun (st : astate) ->
          let es = List.mapi (fun i t -> Printf.sprintf "%d>%d" i (int_of_nat t)) st.a_succ
@@ -202,7 +224,7 @@ let oracle toks impl _model =
                  | None -> bad i s "next undefined") cells)
              with Scanf.Scan_failure _ | End_of_file | Failure _ -> bad i s ("cannot read " ^ r))
           | _ -> ())
-       | "acceptsall" :: _ | "nextall" :: _ | "edges" :: _ | "finals" :: _ | "dump" :: _ | "alphabet" :: _ | "csnext" :: _ ->
+       | "acceptsall" :: _ | "nextall" :: _ | "edges" :: _ | "finals" :: _ | "dump" :: _ | "alphabet" :: _ | "csnext" :: _ | "stateinfo" :: _ ->
          (* determined by the automaton just read back: recompute from the implementation's own dump *)
          (match !cur with
           | Some a when r <> "NOAUT" ->
